@@ -355,3 +355,22 @@ LEVEL_TEXT += _ADDR5B
 _ADDR5D = ' Borrowed: R13.5.'
 EXPLANATION += _ADDR5D
 LEVEL_TEXT += _ADDR5D
+
+
+_run_before_r6b = run
+
+
+def run(repo, rep, tier):  # noqa: F811 -- round-6 remedies (core/round6.py)
+    _run_before_r6b(repo, rep, tier)
+    if getattr(rep, "borrowed", False):
+        return
+    from ..core import round6 as _r6b
+    _r6b.format_endpoints_agree(repo, rep, "R15.12")
+    _r6b.dispatcher_paths_agree(repo, rep, "R13.12")
+    _r6b.flag_lists_owned(repo, rep, "R19.11")
+    _r6b.codec_dialect_merge_order(repo, rep, "R04.7")
+
+
+_ADDR6C = " R15.12: the codec module's default encoder/decoder and the mixin module's are the same call for each format. Borrowed: R13.12, R19.11, R04.7."
+EXPLANATION += _ADDR6C
+LEVEL_TEXT += _ADDR6C
